@@ -72,8 +72,8 @@ def codon_locations(lens, strand):
         exp = ref_codon_positions(starts, lens, strand, frames)
         try:
             locs = cds.chromosome_codon_locations
-        except ValueError:
-            return len(exp) == 0  # a CDS without any complete codon may be refused
+        except (ValueError, BioCantorException):
+            return len(exp) == 0  # a CDS without any complete codon may be refused (with ValueError or one of the library's own exception types)
         return AND(_same_codons(locs, exp, strand), cds.num_codons == len(exp))
 
     return fn
@@ -284,7 +284,7 @@ def obligations(tier):
     quick = tier == "quick"
     shapes = [(n,) for n in range(1, 8)] + list(itertools.product(range(1, 5), repeat=2))
     if quick:
-        shapes += [(4, 5, 3), (5, 5, 2), (2, 2, 2), (1, 3, 4)]  # 3-exon representatives (all 64 shapes: thorough)
+        shapes += [(4, 5, 3), (5, 5, 2), (2, 2, 2), (1, 3, 4), (2, 1, 4), (1, 1, 3)]  # 3-exon representatives incl. 1-bp inner exons (all 64 shapes: thorough)
     else:
         shapes += list(itertools.product(range(1, 5), repeat=3)) + [(4, 5, 3), (5, 5, 2)]
         shapes += [s for s in itertools.product(range(1, 8), repeat=2) if max(s) > 4]
